@@ -8,6 +8,7 @@ package progs
 import (
 	"context"
 	"fmt"
+	"reflect"
 	"runtime"
 	"sync"
 	"sync/atomic"
@@ -500,6 +501,39 @@ var All = []Prog{
 		}
 		return "done"
 	}, []string{"done"}},
+	{"reflect/select-send-or-recv", func() string {
+		a, b := make(chan int), make(chan int, 1)
+		go func() { a <- 1 }()
+		go func() { b <- 2 }()
+		out := ""
+		for i := 0; i < 2; i++ {
+			k, v, ok := reflect.Select([]reflect.SelectCase{
+				{Dir: reflect.SelectRecv, Chan: reflect.ValueOf(a)},
+				{Dir: reflect.SelectRecv, Chan: reflect.ValueOf(b)},
+				{Dir: reflect.SelectSend}, // zero Chan: never ready
+			})
+			out += fmt.Sprint(k, v.Int(), ok, " ")
+		}
+		return out
+	}, []string{"0 1 true 1 2 true ", "1 2 true 0 1 true "}},
+	{"reflect/try-and-close", func() string {
+		c := make(chan string, 1)
+		v := reflect.ValueOf(c)
+		out := fmt.Sprint(v.TrySend(reflect.ValueOf("x")), v.TrySend(reflect.ValueOf("y")))
+		x, ok := v.TryRecv()
+		out += fmt.Sprint(" ", x.String(), ok)
+		x, ok = v.TryRecv()
+		out += fmt.Sprint(" ", x.IsValid(), ok)
+		done := make(chan bool)
+		go func() { v.Send(reflect.ValueOf("z")); v.Close(); done <- true }()
+		x, ok = v.Recv()
+		out += fmt.Sprint(" ", x.String(), ok)
+		<-done
+		x, ok = v.Recv()
+		out += fmt.Sprint(" ", x.String() == "", ok)
+		k, _, _ := reflect.Select([]reflect.SelectCase{{Dir: reflect.SelectSend, Chan: reflect.ValueOf(make(chan int)), Send: reflect.ValueOf(1)}, {Dir: reflect.SelectDefault}})
+		return out + fmt.Sprint(" ", k)
+	}, []string{"true false xtrue false false ztrue true false 1"}},
 	{"pool/nil-new", func() string {
 		var p sync.Pool
 		return fmt.Sprint(p.Get())
